@@ -30,7 +30,7 @@ def names_failure(stdout, code):
 
 def oversize_case(ctx, case):
     fw = dfuse.firmware(case['length'])
-    r = dfuse.run_host(case['pages'], fw, uniform=(1, 5))
+    r = dfuse.run_host(case['pages'], fw, uniform=(1, 5), via=case.get('via', 'file'))
     ctx.count('runs')
     ctx.count('oversize_runs')
     ctx.count('transfers', len(r.dev.requests))
@@ -83,6 +83,9 @@ def run(tier, seed, t0):
         flash = pages * 1024
         for n in list(range(flash + 1, flash + 1026)) + [2 * flash, flash + (1 << 20), flash + (1 << 20) + 1]:
             items.append(('oversize_case', dict(pages=pages, length=n)))
+        # the same through a named pipe (the size of the firmware is not the size of the directory entry)
+        for n in (flash + 1, flash + 1024, flash + 1025, 2 * flash):
+            items.append(('oversize_case', dict(pages=pages, length=n, via='fifo')))
     codes = list(range(1, 16))
     maxp = 5 if tier == 'quick' else 16
     for npages in range(1, maxp + 1):
@@ -114,7 +117,7 @@ def run(tier, seed, t0):
                rule='one state per (variant, image length / page count, set of injected faults, device kind, uniform schedule); one complete execution of dfu.cli_main() each; non-trivial = '
                     'fault runs in which the device actually reported the injected error status',
                exhaustive=True, oversize_runs=n['oversize_runs'], fault_runs=n['fault_runs'], fault_not_reached=n['fault_not_reached'], monitor_states=joint,
-               bound='oversize: flash+1..flash+1025, 2*flash, flash+2^20 (+1) x 4 variants; faults: %d status codes x every erase / set-address / write step of 1..%d page runs x {strict, lenient} '
+               bound='oversize: flash+1..flash+1025, 2*flash, flash+2^20 (+1) x 4 variants (4 of them also through a named pipe); faults: %d status codes x every erase / set-address / write step of 1..%d page runs x {strict, lenient} '
                      'device x 2 schedules; every pair of steps on the lenient device; first / last step on the other three variants' % (len(codes), maxp))
     return kernel.finish(PROP, tier, seed, t0, m, cov, [
         'device model mc/ref/dfuse.py; a specification-conformant device enters dfuERROR and stalls further downloads, the lenient variant keeps accepting them',
